@@ -257,6 +257,18 @@ def gen_cases(ctx):
         L = rng.randint(2, 4)
         yield [dict({"req": "request", "id": f"burst-{i}", "beh": rng.choice(simple)}, **({"burst": True} if i == 0 else {}))
                for i in range(L)]
+    # bursts whose answers take different times: a slow answer that carries no message (so that its terminal message
+    # has to be synthesised) while later requests are already queued - and would overlap if they were not serial
+    quiet = [b for b in singles if b.get("body") in ("empty", "json_scalar", "sse_no_message", "nonjson", "truncated")
+             and b.get("status", 200) < 300 and not b.get("exc")]
+    for j in range(30 if ctx.tier == "quick" else 400):
+        first = dict(rng.choice(quiet), delay=rng.choice([0.2, 0.8]))
+        rest = [dict(rng.choice(simple), delay=rng.choice([0, 0, 0.1])) for _ in range(rng.randint(1, 3))]
+        behs = [first] + rest
+        if j % 3 == 2:
+            behs = rest[:1] + [first] + rest[1:]
+        yield [dict({"req": "request", "id": f"slow-{j}-{i}", "beh": b}, **({"burst": True} if i == 0 else {}))
+               for i, b in enumerate(behs)]
     # pairs / seeded sequences
     if ctx.tier == "thorough":
         for a, b in itertools.product(singles[::3], singles[::5]):
@@ -374,6 +386,11 @@ def exec_case(ctx, seq: List[Dict[str, Any]]) -> None:
             headers["location"] = URL + "/moved"
             return httpx.Response(beh["status"], headers=headers)
         raw, _ = body_for(beh, rec["body"])
+        if beh.get("delay"):
+            async def later(d=beh["delay"], st=beh["status"], h=headers, r=raw):
+                await asyncio.sleep(d)
+                return httpx.Response(st, headers=h, content=r)
+            return later()
         return httpx.Response(beh["status"], headers=headers, content=raw)
 
     async def main():
@@ -424,7 +441,7 @@ def exec_case(ctx, seq: List[Dict[str, Any]]) -> None:
                     # everything is queued before the sender task gets a turn; the answers are attributed by id
                     for msg in msgs:
                         write.send_nowait(msg)
-                    await asyncio.sleep(0.5 * (len(msgs) + 1))
+                    await asyncio.sleep(0.5 * (len(msgs) + 1) + sum(st["beh"].get("delay", 0) for st in seq))
                     for k, step in enumerate(seq):
                         per_step.append(list(got))
                 else:
